@@ -1,6 +1,6 @@
 import SspModel.Lemmas.Pk
 import SspModel.Lemmas.Life
-import SspModel.Lemmas.Bridge
+import SspModel.Lemmas.Bridge.Sev
 import SspModel.Model.Sev
 import SspModel.Props.C13
 import SspModel.Props.C12
